@@ -418,7 +418,7 @@ Definition call (e : env) (c : cfg) (t : tid) (ts : tstate) (o : op) (rest : lis
   end.
 
 Definition src_next (e : env) (sh : shared) : option N :=
-  if s_cur sh <? e_len e then Some (s_cur sh) else None.
+  if e_gap e (s_calls sh) then None else if s_cur sh <? e_len e then Some (s_cur sh) else None.
 
 Definition crashes_now (e : env) (sh : shared) : bool :=
   match e_crash e with Some k => s_calls sh =? k | None => false end.
